@@ -40,6 +40,9 @@ Names == [zbody |-> N("zbody", "Zbody", "zbody"), answer |-> N("answer", "Answer
                      LeafType |-> N("LeafType", "LeafType", "leaf_type"),
                      baseItem |-> N("baseItem", "BaseItem", "base_item"),
                      baseCount |-> N("baseCount", "BaseCount", "base_count"),
+                     baseCode |-> N("baseCode", "BaseCode", "base_code"),
+                     farCode |-> N("farCode", "FarCode", "far_code"),
+                     farLevel |-> N("farLevel", "FarLevel", "far_level"),
                      midItem |-> N("midItem", "MidItem", "mid_item"),
                      leafItem |-> N("leafItem", "LeafItem", "leaf_item"),
                      leafFlag |-> N("leafFlag", "LeafFlag", "leaf_flag"),
@@ -196,6 +199,17 @@ TypeCases ==
                        Cx("LeafType", T("o", "BaseType"), << El("leafItem", B("string"), 1, "1") >>, << At("leafKey", B("string"), "opt") >>) >>),
                       Xsd("base.xsd", "Ufar", << <<"o", "Ufar">> >>,
                     << Cx("BaseType", None, << El("baseItem", B("string"), 1, "1"), El("baseCount", B("int"), 0, "1") >>, << At("baseKey", B("string"), "req") >>) >>) >>,
+   \* the base type of another namespace has members of user-defined types of its own namespace (complex, simple, by reference)
+   extension_far_user |-> << Xsd("main.xsd", "Unear", NearX,
+                    << Imp("Ufar", "base.xsd"),
+                       Cx("LeafType", T("o", "BaseType"), << El("leafItem", B("string"), 1, "1") >>, <<>>),
+                       Cx("MidType", T("t", "LeafType"), << El("midItem", T("o", "FarType"), 0, "1") >>, <<>>) >>),
+                      Xsd("base.xsd", "Ufar", << <<"o", "Ufar">> >>,
+                    << Cx("BaseType", None, << El("baseItem", T("o", "FarType"), 1, "1"), El("baseCode", T("o", "CodeType"), 0, "1"),
+                                               Ref("o", "GlobalThing", 0, "1"), El("baseCount", B("int"), 0, "1") >>, <<>>),
+                       Cx("FarType", None, << El("farValue", B("string"), 1, "1") >>, <<>>),
+                       Simple("CodeType", B("string"), << <<"maxLen", 8>> >>),
+                       ElemI("GlobalThing", << El("thingValue", B("int"), 1, "1") >>) >>) >>,
    simple_restricted |-> << Xsd("main.xsd", "Unear", NearX,
                     << Simple("LevelType", B("int"), << <<"minInc", 1>>, <<"maxInc", 9>> >>),
                        Simple("NarrowLevel", T("t", "LevelType"), << <<"maxInc", 5>> >>),
@@ -226,7 +240,7 @@ TypeCases ==
                     << Cx("kw_self", None, << El("kw_type", B("string"), 1, "1"), El("kw_match", B("int"), 0, "1"), El("kw_async", B("string"), 0, "unb"),
                                               El("kw_crate", B("boolean"), 1, "1") >>,
                           << At("kw_self", B("string"), "opt") >>) >>) >>]
-TypeLabels == IF Tier = "quick" THEN {"builtins_req", "builtins_vec", "positions", "extension_near", "extension_far", "simple_restricted", "keywords", "three_ns", "sibling_collide"}
+TypeLabels == IF Tier = "quick" THEN {"builtins_req", "builtins_vec", "positions", "extension_near", "extension_far", "extension_far_user", "simple_restricted", "keywords", "three_ns", "sibling_collide"}
               ELSE DOMAIN TypeCases
 
 \* ---- WSDL shapes
@@ -248,6 +262,13 @@ WsdlCases ==
                   Common(<< [n |-> "GetItem", action |-> "act",
                              input |-> [msg |-> "request", headers |-> << Hdr("request", "auth"), Hdr("request", "trace") >>],
                              output |-> [msg |-> "response", headers |-> << Hdr("response", "sess") >>]] >>,
+                         << Msg("request", << Part("auth", "tns", "AuthHeader"), Part("bodyPart", "tns", "GetItem"), Part("trace", "tns", "TraceHeader") >>),
+                            Msg("response", << Part("sess", "tns", "SessionHeader"), Part("bodyPart", "tns", "GetItemResponse") >>) >>)) >>,
+   \* WSDL does not fix the order of soap:header and soap:body inside wsdl:input / wsdl:output
+   headers_first |-> << Wsdl(ReqResp \o Headers, <<>>,
+                  Common(<< [n |-> "GetItem", action |-> "act",
+                             input |-> [msg |-> "request", hfirst |-> 1, headers |-> << Hdr("request", "auth"), Hdr("request", "trace") >>],
+                             output |-> [msg |-> "response", hfirst |-> 1, headers |-> << Hdr("response", "sess") >>]] >>,
                          << Msg("request", << Part("auth", "tns", "AuthHeader"), Part("bodyPart", "tns", "GetItem"), Part("trace", "tns", "TraceHeader") >>),
                             Msg("response", << Part("sess", "tns", "SessionHeader"), Part("bodyPart", "tns", "GetItemResponse") >>) >>)) >>,
    oneway |-> << Wsdl(<< ElemI("Ping", << El("pingNote", B("string"), 0, "1") >>) >>, <<>>,
@@ -274,6 +295,21 @@ WsdlCases ==
                              output |-> [msg |-> "response", parts |-> "parameters", headers |-> <<>>]] >>,
                          << Msg("request", << Part("auth", "tns", "AuthHeader"), Part("bodyPart", "tns", "GetItem") >>),
                             Msg("response", << Part("parameters", "tns", "GetItemResponse") >>) >>)) >>,
+   \* one local name, two restricted simple types: a different facet set per namespace
+   restricted_homonym |-> << Wsdl(<< Imp("Ufar", "far.xsd"),
+                             Simple("ShortCode", B("string"), << <<"minLen", 6>>, <<"maxLen", 12>> >>),
+                             Simple("LevelType", B("int"), << <<"minInc", 10>>, <<"maxInc", 20>> >>),
+                             ElemI("GetItem", << El("farCode", T("o", "ShortCode"), 1, "1"), El("code", T("tns", "ShortCode"), 1, "1"),
+                                                 El("farLevel", T("o", "LevelType"), 0, "1"), El("level", T("tns", "LevelType"), 0, "1") >>),
+                             ElemI("GetItemResponse", << El("itemName", B("string"), 1, "1") >>) >>, << <<"o", "Ufar">> >>,
+                  Common(<< [n |-> "GetItem", action |-> "act",
+                             input |-> [msg |-> "request", parts |-> "parameters", headers |-> <<>>],
+                             output |-> [msg |-> "response", parts |-> "parameters", headers |-> <<>>]] >>,
+                         << Msg("request", << Part("parameters", "tns", "GetItem") >>),
+                            Msg("response", << Part("parameters", "tns", "GetItemResponse") >>) >>)),
+                   Xsd("far.xsd", "Ufar", << <<"o", "Ufar">> >>,
+                       << Simple("ShortCode", B("string"), << <<"maxLen", 4>> >>),
+                          Simple("LevelType", B("int"), << <<"minInc", 1>>, <<"maxInc", 5>> >>) >>) >>,
    imported |-> << Wsdl(<< Imp("Ufar", "far.xsd") >>, << <<"o", "Ufar">> >>,
                   Common(<< [n |-> "GetFar", action |-> "act", input |-> [msg |-> "request", parts |-> "parameters", headers |-> << Hdr("request", "sess") >>],
                              output |-> [msg |-> "response", parts |-> "parameters", headers |-> <<>>]] >>,
